@@ -196,11 +196,30 @@ def handleAsr0 (prot : Bool) (f : List String) : Verdict :=
             | none => ⟨.tie, "skip-root" :: tags, "model rejects"⟩
           else
           let k := kk
-          let probs := (List.range len).flatMap fun j =>
-            let tv : String → Vec := tvOf j
+          -- per site: problems nothing explains / the site is entirely explained by known finding F59
+          let perSite : List (List String × Bool) := (List.range len).map fun j =>
             let rep : Report := ⟨steps.getD j 0, (siteSets j).map fun s => s.map (idxOf univ)⟩
-            let tipsExact := algo != .acctran || plain
-            (reportProblems k tv t (algo == .downpass) true tipsExact rep).map fun p => "site " ++ toString j ++ ": " ++ p
+            let pI := reportProblemsK k (tvOf j) t (algo == .downpass) true rep
+            -- the tips whose character at this site has no entry in align.IupacCode (nucleotides only)
+            let oddTips : List Nat := if prot then [] else (List.range leafF.length).filter fun i =>
+              leafF.getD i false && (match lookup m (nnames.getD i "") with
+                | some sq => (iupac (sq.toList.getD j ' ')).isEmpty
+                | none => false)
+            if pI.isEmpty then ([], false)
+            else if oddTips.isEmpty then (pI.map fun p => "site " ++ toString j ++ ": " ++ p.msg, false)
+            else
+              -- F59 region: the site is judged with the CODE's reading of the odd characters (no state); what is left
+              -- must be exactly those tips (written `*`)
+              let repC : Report := ⟨steps.getD j 0, (siteSets j).map fun s => s.map (idxOf asrAlphabet)⟩
+              let pC := reportProblemsK 6 (codeAsrTipVec m j) t (algo == .downpass) true repC
+              let un := pC.filter fun p =>
+                !(match p.kind with
+                  | .tip i => oddTips.contains i
+                  | _ => false)
+              if un.isEmpty then ([], true)
+              else (pI.map fun p => "site " ++ toString j ++ ": " ++ p.msg, false)
+          let probs := perSite.flatMap (·.1)
+          let usedF59 := perSite.any (·.2)
           let probsRR := if rr.all (fun l => l.take len == steps.take len) then [] else ["steps depend on the root"]
           -- site by site agreement with the single-character implementation
           let probsAcr :=
@@ -213,9 +232,9 @@ def handleAsr0 (prot : Bool) (f : List String) : Verdict :=
               if asteps != steps.getD j 0 then ["site " ++ toString j ++ ": ASR steps differ from ACR steps"]
               else if asets != siteSets j then ["site " ++ toString j ++ ": ASR states differ from ACR states"] else []
           let all := probs ++ probsRR ++ probsAcr
-          -- known region: characters without a state set in the code (finding AsrNonIupacCharEmptySet)
-          let cls := if odd && probsRR.isEmpty && probsAcr.isEmpty then "class=AsrNonIupacCharEmptySet " else ""
-          if !all.isEmpty then ⟨.oracle, tags, cls ++ showProblems all⟩ else
+          if !all.isEmpty then ⟨.oracle, tags, showProblems all⟩ else
+          -- only failures that a recorded finding explains completely: site level and kind level
+          if usedF59 then ⟨.oracle, "known-F59" :: tags, "class=AsrNonIupacCharEmptySet a character without IupacCode entry at a tip: one more step at that site, tip written *"⟩ else
           match model with
           | none => ⟨.tie, tags, "model rejects"⟩
           | some mo =>
@@ -398,7 +417,7 @@ def handleAsrR (f : List String) : Verdict :=
           let siteSets (j : Nat) : List (List String) := perNode.map fun s => sortStrings (s.getD j [])
           let probs := (List.range len).flatMap fun j =>
             let rep : Report := ⟨steps.getD j 0, (siteSets j).map fun s => s.map (idxOf asrUniverse)⟩
-            (reportProblemsR 5 (specAsrTipVec m j) t false true (algo != .acctran || plain) rep).map fun p =>
+            (reportProblemsR 5 (specAsrTipVec m j) t false true true rep).map fun p =>
               "site " ++ toString j ++ ": " ++ p
           let tags := tags0 ++ tagIf (steps.any (· ≥ 2)) "nontrivial"
           if !probs.isEmpty then ⟨.oracle, tags, showProblems probs⟩ else
